@@ -49,3 +49,51 @@ Proof. exact loop_unpacked. Qed.
 Check C08_size_in_effect_is_stable : forall mode fuel w,
   ds_unpacked (l_ds (res_state (loopN fuel (pm_body mode) w))) = ds_unpacked (l_ds w).
 Print Assumptions C08_size_in_effect_is_stable.
+
+(* ---------- header options (proofs in Proofs/HeaderRules.v) ---------- *)
+From LZ Require Import Proofs.IoLemmas Proofs.HeaderRules.
+
+(* the three options consume 13 / 13 / 5 header bytes (header_len), whatever the fragmentation of the reader, and the size in
+   effect is: the header field (all-ones = none) / the supplied value / the supplied value (size_in_effect) *)
+Theorem C08_header_consumption_and_size_in_effect : forall (o : options) (s : src) (pbyte : N) (db ub t : list N),
+  FaultFree s -> s_rest s = pbyte :: db ++ ub ++ t -> nlen db = 4 -> nlen ub = size_field_len (o_unpacked o) -> pbyte < 225 ->
+  exists s' : src,
+    src_run (map_io_err EHeaderTooShort (read_header o)) s =
+    (Done {| pr_props := hdr_props pbyte; pr_dict := N.max 4096 (le_num db); pr_unpacked := size_in_effect (o_unpacked o) (le_num ub) |}, s') /\
+    s_rest s' = t /\ s_pos s' = s_pos s + header_len (o_unpacked o) /\ FaultFree s'.
+Proof. exact read_header_ok. Qed.
+Check C08_header_consumption_and_size_in_effect : forall (o : options) (s : src) (pbyte : N) (db ub t : list N),
+  FaultFree s -> s_rest s = pbyte :: db ++ ub ++ t -> nlen db = 4 -> nlen ub = size_field_len (o_unpacked o) -> pbyte < 225 ->
+  exists s' : src,
+    src_run (map_io_err EHeaderTooShort (read_header o)) s =
+    (Done {| pr_props := hdr_props pbyte; pr_dict := N.max 4096 (le_num db); pr_unpacked := size_in_effect (o_unpacked o) (le_num ub) |}, s') /\
+    s_rest s' = t /\ s_pos s' = s_pos s + header_len (o_unpacked o) /\ FaultFree s'.
+Print Assumptions C08_header_consumption_and_size_in_effect.
+
+(* end to end through lzma_decompress: with a size n in effect, success means the window saw exactly n bytes *)
+Theorem C08_lzma_decompress_sized_exact : forall (fuel : positive) (o : options) (w w' : io) (pbyte : N) (db ub t : list N) (n : N),
+  FaultFree (i_src w) -> s_rest (i_src w) = pbyte :: db ++ ub ++ t -> nlen db = 4 -> nlen ub = size_field_len (o_unpacked o) ->
+  size_in_effect (o_unpacked o) (le_num ub) = Some n ->
+  lzma_decompress fuel o w = (Done tt, w') ->
+  pbyte < 225 /\
+  (exists (s : src) (dec : lzma_decoder) (r : rc) (s2 : src) (x : lw) (c : circ),
+     s_rest s = t /\ s_pos s = s_pos (i_src w) + header_len (o_unpacked o) /\
+     lzma_decoder_new {| pr_props := hdr_props pbyte; pr_dict := N.max 4096 (le_num db); pr_unpacked := Some n |} (o_memlimit o) = Done dec /\
+     src_run (map_io_err ELzma rc_new) s = (Done r, s2) /\
+     process_mode FinishMode fuel
+       {| l_ds := ld_state dec; l_rc := r; l_src := s2; l_win := WCirc (circ_new (i_snk w) (N.max 4096 (le_num db)) (ld_memlimit dec)) |} = (Done tt, x) /\
+     l_win x = WCirc c /\ c_len c = n /\ circ_finish c = (Done tt, i_snk w') /\ i_src w' = l_src x).
+Proof. exact lzma_decompress_sized_exact. Qed.
+Check C08_lzma_decompress_sized_exact : forall (fuel : positive) (o : options) (w w' : io) (pbyte : N) (db ub t : list N) (n : N),
+  FaultFree (i_src w) -> s_rest (i_src w) = pbyte :: db ++ ub ++ t -> nlen db = 4 -> nlen ub = size_field_len (o_unpacked o) ->
+  size_in_effect (o_unpacked o) (le_num ub) = Some n ->
+  lzma_decompress fuel o w = (Done tt, w') ->
+  pbyte < 225 /\
+  (exists (s : src) (dec : lzma_decoder) (r : rc) (s2 : src) (x : lw) (c : circ),
+     s_rest s = t /\ s_pos s = s_pos (i_src w) + header_len (o_unpacked o) /\
+     lzma_decoder_new {| pr_props := hdr_props pbyte; pr_dict := N.max 4096 (le_num db); pr_unpacked := Some n |} (o_memlimit o) = Done dec /\
+     src_run (map_io_err ELzma rc_new) s = (Done r, s2) /\
+     process_mode FinishMode fuel
+       {| l_ds := ld_state dec; l_rc := r; l_src := s2; l_win := WCirc (circ_new (i_snk w) (N.max 4096 (le_num db)) (ld_memlimit dec)) |} = (Done tt, x) /\
+     l_win x = WCirc c /\ c_len c = n /\ circ_finish c = (Done tt, i_snk w') /\ i_src w' = l_src x).
+Print Assumptions C08_lzma_decompress_sized_exact.
